@@ -548,6 +548,13 @@ def execMacro (t : List String) : String :=
   | some v => encValue v
   | none => "macro-error"
 
+def execTriv (t : List String) : String :=
+  match t with
+  | _ :: fast :: ro :: a :: rest =>
+    let run (h : String) : String := execParse ["parse", fast, "b", ro, "r:v:64", h]
+    s!"{run a} || {run (rest.headD "")}"
+  | _ => "bad-op"
+
 def exec (line : String) : String :=
   let t := (line.trimAscii.toString.splitOn " ").filter (· != "")
   match t.head? with
@@ -561,6 +568,7 @@ def exec (line : String) : String :=
   | some "rt" => execRt t
   | some "prefix" => execPrefix t
   | some "pp" => execPp t
+  | some "triv" => execTriv t
   | some "ser" => execSer t
   | some "macro" => execMacro t
   | some "de" => execDe t
